@@ -200,6 +200,23 @@ Definition eth2_clients_check (nparams : list string) (callers clients : list si
      end
   && String.eqb mbody "Instrument(newClients(timeout, forkVersion, headers, addrs), newClients(timeout, forkVersion, headers, fallbackAddrs))".
 
+(* ---------------------------------------------------------------------------------------------
+   C10 / C01: the public-share maps handed to validatorapi.NewComponent and parsigex.NewEth2Verifier.
+   allPubSharesByKey[validator] = allPubShares with allPubShares[i+1] = PubShares[i] for the entries of
+   val.PubShares and NOTHING else: share indices are 1..n, in particular no entry 0 (the group key) --
+   a partial "signature" with an out-of-range share index has no public share to verify under and is
+   refused before it reaches the store. *)
+Definition expected_pubshares : list site := [
+  mkSite "range" ["vi"; "val"; "lock.Validators"] [];
+  mkSite "assign corePubkey" ["core.PubKeyFromBytes(val.PubKey)"] ["loop"];
+  mkSite "assign allPubShares" ["make(map[int]tbls.PublicKey)"] ["loop"];
+  mkSite "range" ["i"; "b"; "val.PubShares"] ["loop"];
+  mkSite "assign pubshare" ["tblsconv.PubkeyFromBytes(b)"] ["loop"; "loop"];
+  mkSite "allPubShares[i+1]" ["pubshare"] ["loop"; "loop"];
+  mkSite "allPubSharesByKey[corePubkey]" ["allPubShares"] ["loop"];
+  mkSite "declare allPubSharesByKey" ["make(map[core.PubKey]map[int]tbls.PublicKey)"] [] ].
+Definition pubshares_check (ss : list site) : bool := sites_eqb ss expected_pubshares.
+
 (* Sanity of the checker: it accepts the shape above and rejects the rewrites it is there for. *)
 Definition good_defs : list vdef := [
   mkDef "parSigDB" [RCall "parsigdb.NewMemDB" ["lock.Threshold"; "d"; "m"]];
